@@ -17,6 +17,7 @@ class ExtractionBreak(Exception):
 # configuration of /repo/_build (DESIGN 3.1 step 1)
 CONFIG_MACROS = {
     'XALAN_DEBUG': False,
+    'XALAN_ICU_DEFAULT_LOCALE_PROBLEM': False,
     'XALAN_AUTO_PTR_REQUIRES_DEFINITION': True,
     'XALAN_NON_ASCII_PLATFORM': False,
     'XALAN_RECURSIVE_STYLESHEET_EXECUTION': False,
@@ -222,6 +223,8 @@ def cut_function(src, sig, occurrence=0, after=None):
         p = src.find('(', s)
         if p < 0:
             continue
+        if src[p:p + 3] == '()(' and src[max(0, p - 8):p] == 'operator':
+            p += 2          # operator()(parameters)
         q = match_close(src, p)
         k = q + 1
         # skip trailing const / whitespace / initialiser lists are not supported
